@@ -276,11 +276,63 @@ static void run_history (char **tok, int ntok)
 
 /* a crash inside the library: report it as the result of the current case and stop;
    the harness restarts the driver on the remaining cases */
+#include <setjmp.h>
+static sigjmp_buf h_jmp; static volatile int h_active;
 static void on_crash (int sig)
 {
+    if (h_active && (sig == SIGSEGV || sig == SIGBUS)) siglongjmp (h_jmp, 1);
     printf ("CRASH:sig%d\n", sig);
     fflush (stdout);
     _exit (70);
+}
+
+/* ---- read extent of one scanner call (C06, layer A): the smallest k such that the call returns when only the first k
+   bytes of the C string are mapped (byte k would fall on a PROT_NONE page), i.e. 1 + the highest index read; and whether
+   anything before the first byte is read.  Execution is deterministic and sees the same bytes below k, so faulting is
+   monotone in k and a bisection finds the bound. */
+static int h_call (int fn, const char *s, const char *e)
+{
+    switch (fn) {
+    case '8': return is_822_local (s, e);
+    case '1': return is_5321_local (s, e);
+    case '2': return is_5322_local (s, e);
+    case '3': return is_6531_local (s, e);
+    case '4': return is_ipv4 (s, e);
+    case '6': return is_ipv6 (s, e);
+    case 'P': return is_ipaddr (s, e);
+    default:  return is_ascii_domain (s, e);
+    }
+}
+static volatile int h_rc;
+static int h_try (int fn, const char *s, const char *e)   /* 1 = returned, 0 = faulted */
+{
+    h_active = 1;
+    if (sigsetjmp (h_jmp, 1) == 0) { h_rc = h_call (fn, s, e); h_active = 0; return 1; }
+    h_active = 0; return 0;
+}
+static void read_extent (int fn, const char *src, size_t n, size_t total)   /* total = bytes including the terminator */
+{
+    size_t pg = 4096, need = ((total + pg - 1) / pg) * pg;
+    size_t len = need + 2 * pg;
+    char *base = mmap (NULL, len, PROT_READ | PROT_WRITE, MAP_PRIVATE | MAP_ANONYMOUS, -1, 0);
+    mprotect (base, pg, PROT_NONE); mprotect (base + pg + need, pg, PROT_NONE);
+    char *fence = base + pg + need;
+    /* highest index read */
+    long lo = 0, hi = (long) total, kmin = -1; int rc = 0;
+    memcpy (fence - total, src, total);
+    if (!h_try (fn, fence - total, fence - total + n)) { printf ("BEYOND\n"); munmap (base, len); return; }
+    rc = h_rc; kmin = hi;
+    while (lo < hi) {           /* invariant: hi returns; everything below lo faults */
+        long k = (lo + hi) / 2;
+        memset (base + pg, 0x5a, need); memcpy (fence - k, src, (size_t) k);
+        if (h_try (fn, fence - k, fence - k + n)) { hi = k; rc = h_rc; } else lo = k + 1;
+    }
+    kmin = hi;
+    /* anything before the first byte */
+    memset (base + pg, 0, need); memcpy (base + pg, src, total);
+    int under = !h_try (fn, base + pg, base + pg + n);
+    printf ("%ld %d %d\n", kmin, under, under ? 0 : rc);
+    munmap (base, len);
 }
 
 int main (void)
@@ -313,6 +365,12 @@ int main (void)
             else if (k == '6') printf ("%d\n", is_ipv6 (s, e));
             else printf ("%d\n", is_ipaddr (s, e));
             if (placed) unplace (placed);
+        }
+        else if (k == 'H') {
+            size_t n = unhex (f[2], a_buf);
+            size_t r = unhex (nf > 3 ? f[3] : "-", a_buf + n);
+            a_buf[n + r] = 0;
+            read_extent (f[1][0], a_buf, n, n + r + 1);
         }
         else if (k == 'S' || k == 'T') {
             size_t n = unhex (f[1], a_buf);
